@@ -19,7 +19,7 @@ use reqwest::sim::{BodyEnd, Plan, RequestInfo};
 use serde_json::json;
 use simkit::{ch, chance, probe, range, Exec, Outcome, Stop, Violation};
 use std::cell::RefCell;
-use std::collections::BTreeMap;
+use std::collections::{BTreeMap, BTreeSet};
 use std::path::{Path, PathBuf};
 use std::rc::Rc;
 use std::str::FromStr;
@@ -153,6 +153,11 @@ struct Model {
     file_rels: BTreeMap<String, String>,
     sym_urls: BTreeMap<String, usize>, // url-without-query -> module index
     rival_pending: Option<(String, Vec<u8>)>,
+    /// rel paths that were seen holding a permitted entry at some check point
+    established: BTreeSet<String>,
+    /// rel paths whose commit failed at the persist step (injected I/O error or a link error):
+    /// the entry that the commit had removed to make room may then be gone
+    persist_failed: BTreeSet<String>,
 }
 
 fn url_without_query(u: &str) -> String {
@@ -224,9 +229,13 @@ impl Model {
         Err("the entry's content is neither a complete download plus note nor a pre-existing file")
     }
 
-    fn check_fs(&mut self) -> simkit::Check {
+    /// `commit_window`: the final path of a commit whose persist step is running right now
+    /// (the unchanged code removes an existing entry immediately before it links the complete
+    /// temp file into place; between those two calls the path is legitimately empty).
+    fn check_fs(&mut self, commit_window: Option<&Path>) -> simkit::Check {
         self.fs_checks += 1;
         let (files, _dirs) = list_tree(&self.cache.clone());
+        let mut present: BTreeSet<String> = BTreeSet::new();
         for (rel, content) in files {
             if rel.contains(".simtmp-") {
                 return Err(Violation::new("c16.temp_in_cache", "a temporary file is visible inside the cache directory"));
@@ -234,7 +243,24 @@ impl Model {
             if let Err(why) = self.permitted(&rel, &content) {
                 return Err(Violation::new("c16.bad_cache_entry", why));
             }
+            present.insert(rel);
         }
+        // An entry, once there, is only ever taken away by a commit that puts a complete
+        // download in its place: outside the persist step of such a commit (and unless that
+        // step failed on an I/O error) every established entry is still there.
+        for rel in &self.established {
+            if present.contains(rel) || self.persist_failed.contains(rel) {
+                continue;
+            }
+            if let Some(w) = commit_window {
+                if w == self.cache.join(rel) {
+                    continue;
+                }
+            }
+            probe("e3.entry_vanished");
+            return Err(Violation::new("c16.entry_vanished", "a cache entry was removed although no complete download was being committed in its place (a later lookup without network no longer finds what an earlier download or process had cached)"));
+        }
+        self.established.extend(present);
         if self.tmp.is_dir() {
             let (tfiles, _) = list_tree(&self.tmp.clone());
             for (rel, _) in &tfiles {
@@ -607,8 +633,21 @@ fn install_tempfile(model: &Rc<RefCell<Model>>, fault_den: u32) {
             }
             _ => {}
         }
+        let window: Option<PathBuf> = match ev {
+            tsim::Event::PersistBegin { to, .. } => Some(to.clone()),
+            tsim::Event::Persisted { to, ok, .. } => {
+                if !*ok && !to.exists() {
+                    if let Ok(rel) = to.strip_prefix(&m.cache.clone()) {
+                        m.persist_failed.insert(rel.to_string_lossy().to_string());
+                        probe("e3.persist_failed_entry_gone");
+                    }
+                }
+                Some(to.clone())
+            }
+            _ => None,
+        };
         if m.violation.is_none() {
-            if let Err(v) = m.check_fs() {
+            if let Err(v) = m.check_fs(window.as_deref()) {
                 m.violation = Some(v);
             }
         }
@@ -649,6 +688,8 @@ fn run_inner(c12_files: bool) -> Outcome {
         file_rels: BTreeMap::new(),
         sym_urls: BTreeMap::new(),
         rival_pending: None,
+        established: BTreeSet::new(),
+        persist_failed: BTreeSet::new(),
     }));
     {
         let mut m = model.borrow_mut();
@@ -760,7 +801,7 @@ fn run_inner(c12_files: bool) -> Outcome {
                     if let Some(v) = m.violation.clone() {
                         break Err(v);
                     }
-                    if let Err(v) = m.check_fs() {
+                    if let Err(v) = m.check_fs(None) {
                         break Err(v);
                     }
                 }
@@ -795,7 +836,7 @@ fn run_inner(c12_files: bool) -> Outcome {
         if let Some(v) = m.violation.clone() {
             return Err(v);
         }
-        m.check_fs()?;
+        m.check_fs(None)?;
         simkit::ensure!(simkit::with_ctx(|c| c.probes.get("e3.file_result_missing_at_return").copied().unwrap_or(0)) == 0, "c16.file_result_missing", "locate_file returned a path that was not a file at the moment of return");
         simkit::ensure!(simkit::with_ctx(|c| c.probes.get("e3.file_result_wrong_path").copied().unwrap_or(0)) == 0, "c12.file_result_wrong_path", "locate_file returned the path of a different module or a different kind of file (requesters of distinct files share one remembered result)");
         // 3. no temp file left once everything resolved or was cancelled
